@@ -296,6 +296,46 @@ func c04(c *core.Ctx) {
 			c04Judge(c, wire, wrong, "signed-wrong-key", false)
 		}
 	})
+	// (b2) one key buffer rewritten in place between uses (the pooled HMAC must not remember keys by reference)
+	c.Section("key-buffer-reuse", c.N(300, 10000), func(_ int64, r *gen.Rand) {
+		buf := r.Bytes(r.PickInt([]int{8, 16, 16, 20, 64, 80}))
+		mi := stun.MessageIntegrity(buf)
+		for round := 0; round < 6; round++ {
+			m := new(stun.Message)
+			_ = m.Build(stun.BindingRequest, stun.NewTransactionIDSetter(r.TID()), stun.RawAttribute{Type: 0x8022, Value: r.Bytes(r.Intn(30))})
+			if err := mi.AddTo(m); err != nil {
+				c.Violate("sign-error", "sign-error", err.Error())
+
+				return
+			}
+			wire := append([]byte(nil), m.Raw...)
+			keyNow := append([]byte(nil), buf...)
+			c04Judge(c, wire, keyNow, "key-buffer-reuse:signed", false)
+			// the same bytes checked through the very same (aliased) key value
+			rm, _ := ref.Parse(wire)
+			want, _ := c04Oracle(wire, rm, keyNow)
+			dec := new(stun.Message)
+			_ = stun.Decode(wire, dec)
+			if got := mi.Check(dec) == nil; got != want {
+				c.Violate("check-verdict", "check-verdict:key-buffer-reuse", map[string]interface{}{
+					"round": round, "key_hex": core.Hex(keyNow), "input_hex": core.Hex(wire), "lib_pass": got, "oracle_pass": want})
+
+				return
+			}
+			r.Fill(buf) // the caller overwrites its key buffer in place
+			// the old message must now fail under the new key (different HMAC)
+			c04Judge(c, wire, append([]byte(nil), buf...), "key-buffer-reuse:old-message-new-key", false)
+			if got := mi.Check(dec) == nil; got {
+				if ok, _ := c04Oracle(wire, rm, buf); !ok {
+					c.Violate("check-verdict", "check-verdict:key-buffer-reuse", map[string]interface{}{
+						"round": round, "problem": "message signed under the previous content of the key buffer verifies under its new content", "input_hex": core.Hex(wire)})
+
+					return
+				}
+			}
+		}
+		c.Distinct(r.U64())
+	})
 	// (c) every single-bit flip of signed messages
 	c.Section("bitflips", c.N(50, 2000), func(_ int64, r *gen.Rand) {
 		m, key, ok := c04Sign(c, r)
